@@ -379,15 +379,31 @@ fn replay(args: &[String]) {
 // ---------------------------------------------------------------------------------------------
 // inline images spelled by the harness
 
+/// optional entries of ISO 32000-1 Table 93 that a valid image may spell out with their default or
+/// neutral values (they never change the data length)
+#[derive(Clone, Copy, PartialEq, Debug)]
+enum Opt {
+    ImFalse,
+    Interp(bool),
+    Decode(bool), // inverted?
+}
+
 struct Inline {
     cs: &'static str,
     bpc: usize,
     w: usize,
     h: usize,
+    /// required keys in full (Width ...) or abbreviated (W ...)
     full_keys: bool,
+    /// optional keys in full (ImageMask, Interpolate, Decode) or abbreviated (IM, I, D)
+    full_opt_keys: bool,
+    opts: Vec<Opt>,
+    /// order of the entries: a permutation seed (0 = required entries first, in W H BPC CS order)
+    order: u64,
     extra: u8,
     idws: u8,
     data: Vec<u8>,
+    /// stencil mask: /IM true, no colour space; bpc = 0 means BitsPerComponent is left out
     mask: bool,
     filter: bool,
 }
@@ -400,22 +416,46 @@ fn ncomp(cs: &str) -> usize {
     }
 }
 
-fn inline_bytes(im: &Inline) -> Vec<u8> {
+fn inline_entries(im: &Inline) -> Vec<String> {
     let (kw, kh, kb, kc) = if im.full_keys { ("Width", "Height", "BitsPerComponent", "ColorSpace") } else { ("W", "H", "BPC", "CS") };
-    let mut s = String::new();
-    s.push_str("q\nBI\n");
+    let (kim, ki, kd) = if im.full_opt_keys { ("ImageMask", "Interpolate", "Decode") } else { ("IM", "I", "D") };
+    let mut e = vec![format!("/{kw} {}", im.w), format!("/{kh} {}", im.h)];
+    let n = if im.mask { 1 } else { ncomp(im.cs) };
     if im.mask {
-        s.push_str(&format!("/{kw} {} /{kh} {} /{} true", im.w, im.h, if im.full_keys { "ImageMask" } else { "IM" }));
+        if im.bpc != 0 {
+            e.push(format!("/{kb} {}", im.bpc));
+        }
+        e.push(format!("/{kim} true"));
     } else {
-        match im.extra % 3 {
-            0 => s.push_str(&format!("/{kw} {} /{kh} {} /{kb} {} /{kc} /{}", im.w, im.h, im.bpc, im.cs)),
-            1 => s.push_str(&format!("/{kc}/{}/{kb} {}/{kh} {}/{kw} {}", im.cs, im.bpc, im.h, im.w)),
-            _ => s.push_str(&format!("/{kw} {} /{kh} {} /{kc} /{} /{kb} {} /D [0 1] /I true", im.w, im.h, im.cs, im.bpc)),
+        e.push(format!("/{kb} {}", im.bpc));
+        e.push(format!("/{kc} /{}", im.cs));
+    }
+    for o in &im.opts {
+        match o {
+            Opt::ImFalse => e.push(format!("/{kim} false")),
+            Opt::Interp(b) => e.push(format!("/{ki} {b}")),
+            Opt::Decode(inv) => {
+                let pair = if *inv { "1 0" } else { "0 1" };
+                e.push(format!("/{kd} [{}]", vec![pair; n].join(" ")));
+            }
         }
     }
     if im.filter {
-        s.push_str(" /F /AHx");
+        e.push("/F /AHx".to_string());
     }
+    if im.order != 0 {
+        let mut r = Rng::new(im.order);
+        r.shuffle(&mut e);
+    }
+    e
+}
+
+fn inline_bytes(im: &Inline) -> Vec<u8> {
+    let e = inline_entries(im);
+    let mut s = String::from("q\nBI\n");
+    // entries separated by a blank, or (every value here ends in a delimiter or is followed by '/') by nothing
+    // where that is unambiguous: "/W 3/H 2"
+    s.push_str(&e.join(if im.extra % 3 == 1 { "" } else { " " }));
     s.push_str(if im.extra % 2 == 0 { "\nID" } else { " ID" });
     let mut b = s.into_bytes();
     b.push(im.idws);
@@ -443,6 +483,25 @@ fn image_data(rng: &mut Rng, len: usize) -> Vec<u8> {
     d
 }
 
+/// the sets of optional entries every colour space x BPC combination is tried with
+fn opt_sets() -> Vec<(Vec<Opt>, bool)> {
+    vec![
+        (vec![], false),
+        (vec![Opt::ImFalse], false),
+        (vec![Opt::ImFalse], true),
+        (vec![Opt::Interp(false)], false),
+        (vec![Opt::Interp(true)], true),
+        (vec![Opt::Decode(false)], false),
+        (vec![Opt::Decode(true)], true),
+        (vec![Opt::ImFalse, Opt::Interp(true), Opt::Decode(false)], false),
+        (vec![Opt::Decode(false), Opt::Interp(false), Opt::ImFalse], true),
+    ]
+}
+
+fn opts_json(o: &[Opt]) -> Value {
+    Value::Array(o.iter().map(|x| Value::from(format!("{x:?}"))).collect())
+}
+
 fn inline(args: &[String]) {
     let seed = arg_u64(args, "--seed", 1);
     let n = arg_u64(args, "--n", 100);
@@ -450,19 +509,33 @@ fn inline(args: &[String]) {
     let mut rng = Rng::new(seed ^ 0xC14_0003);
     let mut case = 0u64;
     let spaces = ["G", "DeviceGray", "RGB", "DeviceRGB", "CMYK", "DeviceCMYK"];
-    // every supported colour space x BPC x three geometries, then random ones
-    let mut todo: Vec<(&'static str, usize, usize, usize)> = vec![];
+    let geos = [(1usize, 1usize), (3, 2), (5, 3)];
+    // every supported colour space x BPC x every set of optional entries (geometry rotating), then random ones
+    let mut todo: Vec<(&'static str, usize, usize, usize, Vec<Opt>, bool)> = vec![];
+    let mut k = 0usize;
     for cs in spaces {
         for bpc in [1, 2, 4, 8] {
-            for (w, h) in [(1, 1), (3, 2), (5, 3)] {
-                todo.push((cs, bpc, w, h));
+            for (opts, full) in opt_sets() {
+                let (w, h) = geos[k % 3];
+                k += 1;
+                todo.push((cs, bpc, w, h, opts, full));
             }
         }
     }
     for _ in 0..n {
-        todo.push((*rng.pick(&spaces), *rng.pick(&[1, 2, 4, 8]), 1 + rng.below(9), 1 + rng.below(5)));
+        let mut opts = vec![];
+        if rng.chance(1, 3) {
+            opts.push(Opt::ImFalse);
+        }
+        if rng.chance(1, 3) {
+            opts.push(Opt::Interp(rng.chance(1, 2)));
+        }
+        if rng.chance(1, 3) {
+            opts.push(Opt::Decode(rng.chance(1, 2)));
+        }
+        todo.push((*rng.pick(&spaces), *rng.pick(&[1, 2, 4, 8]), 1 + rng.below(9), 1 + rng.below(5), opts, rng.chance(1, 2)));
     }
-    for (cs, bpc, w, h) in todo {
+    for (i, (cs, bpc, w, h, opts, full_opt)) in todo.into_iter().enumerate() {
         let len = h * ((w * ncomp(cs) * bpc + 7) / 8);
         let im = Inline {
             cs,
@@ -470,6 +543,10 @@ fn inline(args: &[String]) {
             w,
             h,
             full_keys: matches!(cs, "DeviceGray" | "DeviceRGB" | "DeviceCMYK") && rng.chance(1, 2),
+            full_opt_keys: full_opt,
+            // a third of the images keep the conventional order, the others any order
+            order: if i % 3 == 0 { 0 } else { 1 + rng.next_u64() % 1_000_000 },
+            opts,
             extra: rng.byte(),
             idws: if rng.chance(1, 8) { *rng.pick(b"\r\t") } else { *rng.pick(b" \n") },
             data: image_data(&mut rng, len),
@@ -477,23 +554,57 @@ fn inline(args: &[String]) {
             filter: false,
         };
         let bytes = inline_bytes(&im);
-        let meta = json!({"cs": cs, "bpc": bpc, "w": w, "h": h, "idws": im.idws, "len": len,
+        let meta = json!({"cs": cs, "bpc": bpc, "w": w, "h": h, "idws": im.idws, "len": len, "opts": opts_json(&im.opts),
+                          "full_keys": im.full_keys, "full_opt_keys": im.full_opt_keys, "entries": inline_entries(&im),
                           "first": im.data.first().map(|x| *x as i64).unwrap_or(-1), "last": im.data.last().map(|x| *x as i64).unwrap_or(-1)});
         put_chain(&mut out, case, "inline", &bytes, meta);
         case += 1;
     }
+    // stencil masks as 8.9.6.2 defines them (ImageMask true, one bit per sample, no colour space): valid images,
+    // but not "of a supported colour space" -- the check reports what lopdf does with them as observations
+    for (j, (w, h)) in [(1usize, 1usize), (8, 2), (9, 3), (17, 1)].into_iter().enumerate() {
+        for (v, (bpc, opts)) in [(0usize, vec![]), (1, vec![]), (0, vec![Opt::Decode(true)]), (1, vec![Opt::Interp(true), Opt::Decode(false)])].into_iter().enumerate() {
+            let len = h * ((w + 7) / 8);
+            let im = Inline {
+                cs: "",
+                bpc,
+                w,
+                h,
+                full_keys: (j + v) % 2 == 1,
+                full_opt_keys: (j + v) % 2 == 1,
+                opts,
+                order: if v % 2 == 0 { 0 } else { 7 + (j * 4 + v) as u64 },
+                extra: (j * 4 + v) as u8,
+                idws: b' ',
+                data: image_data(&mut rng, len),
+                mask: true,
+                filter: false,
+            };
+            let bytes = inline_bytes(&im);
+            put_chain(&mut out, case, "inline.mask", &bytes, json!({"w": w, "h": h, "bpc": bpc, "opts": opts_json(&im.opts), "entries": inline_entries(&im)}));
+            case += 1;
+        }
+    }
     // observations outside the quantifier ("supported colour space"): names that are not ISO abbreviations,
-    // image masks, filtered data, FF / NUL after ID
+    // a mask with a colour space, filtered data, FF / NUL after ID
+    let base = |cs: &'static str, bpc: usize, w: usize, h: usize, idws: u8, data: Vec<u8>| Inline {
+        cs, bpc, w, h, full_keys: false, full_opt_keys: false, opts: vec![], order: 0, extra: 0, idws, data, mask: false, filter: false,
+    };
     let probes: Vec<(&str, Inline)> = vec![
-        ("probe.inline.cs-Gray", Inline { cs: "Gray", bpc: 8, w: 2, h: 1, full_keys: false, extra: 0, idws: b' ', data: vec![1, 2], mask: false, filter: false }),
-        ("probe.inline.cs-RGBA", Inline { cs: "RGBA", bpc: 8, w: 1, h: 1, full_keys: false, extra: 0, idws: b' ', data: vec![1, 2, 3, 4], mask: false, filter: false }),
-        ("probe.inline.imagemask", Inline { cs: "G", bpc: 1, w: 8, h: 2, full_keys: false, extra: 0, idws: b' ', data: vec![0xAA, 0x55], mask: true, filter: false }),
-        ("probe.inline.filter", Inline { cs: "G", bpc: 8, w: 1, h: 1, full_keys: false, extra: 0, idws: b' ', data: b"41>".to_vec(), mask: false, filter: true }),
-        ("probe.inline.idws-ff", Inline { cs: "G", bpc: 8, w: 2, h: 1, full_keys: false, extra: 0, idws: 0x0c, data: vec![65, 66], mask: false, filter: false }),
-        ("probe.inline.idws-nul", Inline { cs: "RGB", bpc: 8, w: 1, h: 1, full_keys: false, extra: 0, idws: 0, data: vec![65, 66, 67], mask: false, filter: false }),
+        ("probe.inline.cs-Gray", base("Gray", 8, 2, 1, b' ', vec![1, 2])),
+        ("probe.inline.cs-RGBA", base("RGBA", 8, 1, 1, b' ', vec![1, 2, 3, 4])),
+        ("probe.inline.filter", Inline { filter: true, ..base("G", 8, 1, 1, b' ', b"41>".to_vec()) }),
+        ("probe.inline.idws-ff", base("G", 8, 2, 1, 0x0c, vec![65, 66])),
+        ("probe.inline.idws-nul", base("RGB", 8, 1, 1, 0, vec![65, 66, 67])),
+        // not ISO (a mask must not name a colour space) but seen in the field: /IM true with BPC 1 and /CS /G
+        ("probe.inline.mask-with-cs", Inline { opts: vec![], ..base("G", 1, 8, 2, b' ', vec![0xAA, 0x55]) }),
     ];
-    for (cls, im) in probes {
-        let bytes = inline_bytes(&im);
+    for (cls, mut im) in probes {
+        let mut bytes = inline_bytes(&im);
+        if cls == "probe.inline.mask-with-cs" {
+            im.opts = vec![];
+            bytes = b"q\nBI\n/W 8 /H 2 /BPC 1 /CS /G /IM true\nID \xaaU\nEI\nQ".to_vec();
+        }
         put_chain(&mut out, case, cls, &bytes, json!({"cs": im.cs, "bpc": im.bpc, "w": im.w, "h": im.h, "idws": im.idws}));
         case += 1;
     }
